@@ -40,6 +40,9 @@ structure Frame where
   dirty : Bool
 deriving Repr, DecidableEq
 
+/-- a write through a latch / `try_with_page_mut`: new content, dirty bit set -/
+def Frame.setVal (v : Nat) (g : Frame) : Frame := { g with val := v, dirty := true }
+
 structure Cache where
   capacity : Nat
   frames : List Frame
@@ -147,6 +150,8 @@ def Cache.setCapacity (c : Cache) (n : Nat) : Cache := { c with capacity := n }
 structure Handle where
   hid : Nat
   fid : Nat
+  /-- page number of the frame (immutable; `MemFrame::page_number`) -/
+  page : Nat
 deriving Repr, DecidableEq
 
 structure Mem where
@@ -186,8 +191,9 @@ def updFid (fid : Nat) (g : Frame → Frame) (l : List Frame) : List Frame :=
 def Mem.updateFrame (m : Mem) (fid : Nat) (g : Frame → Frame) : Mem :=
   { m with cache := { m.cache with frames := updFid fid g m.cache.frames }, detached := updFid fid g m.detached }
 
-def Mem.addHandle (m : Mem) (fid : Nat) : Mem × Nat :=
-  ({ m with handles := m.handles ++ [{ hid := m.nextHid, fid }], nextHid := m.nextHid + 1 }, m.nextHid)
+def Mem.addHandle (m : Mem) (f : Frame) : Mem × Nat :=
+  ({ m with handles := m.handles ++ [{ hid := m.nextHid, fid := f.fid, page := f.page }], nextHid := m.nextHid + 1 },
+   m.nextHid)
 
 def Mem.dropHandle (m : Mem) (k : Nat) : Mem :=
   let m' := { m with handles := m.handles.filter (fun h => h.hid != k) }
@@ -231,7 +237,7 @@ def Mem.cstep (D : Defects) (m : Mem) : COp → Mem × String
     | none => (m, "miss")
   | .pin p =>
     match m.cache.get p with
-    | some f => let (m', k) := m.addHandle f.fid; (m', s!"h{k}")
+    | some f => let (m', k) := m.addHandle f; (m', s!"h{k}")
     | none => (m, "miss")
   | .unpin k =>
     match m.handle? k with
@@ -245,7 +251,7 @@ def Mem.cstep (D : Defects) (m : Mem) : COp → Mem × String
     | none => (m, "nohandle")
   | .hwrite k v =>
     match m.handle? k with
-    | some h => (m.updateFrame h.fid (fun f => { f with val := v, dirty := true }), "ok")
+    | some h => (m.updateFrame h.fid (Frame.setVal v), "ok")
     | none => (m, "nohandle")
   | .hdirty k =>
     match m.handle? k with
@@ -398,13 +404,13 @@ def Pager.step (D : Defects) (s : Pager) : POp → Pager × Out
     if s.lost.contains p then (s, .lost) else
     match s.readPage D p with
     | (s', .frame f) =>
-      ({ s' with mem := s'.mem.updateFrame f.fid (fun g => { g with val := v, dirty := true }) }, .ok)
+      ({ s' with mem := s'.mem.updateFrame f.fid (Frame.setVal v) }, .ok)
     | (s', .oom) => (s', .oom)
     | (s', .io) => (s', .io)
   | .pin p =>
     if s.lost.contains p then (s, .lost) else
     match s.readPage D p with
-    | (s', .frame f) => let (m, k) := s'.mem.addHandle f.fid; ({ s' with mem := m }, .handle k)
+    | (s', .frame f) => let (m, k) := s'.mem.addHandle f; ({ s' with mem := m }, .handle k)
     | (s', .oom) => (s', .oom)
     | (s', .io) => (s', .io)
   | .unpin k =>
@@ -419,7 +425,7 @@ def Pager.step (D : Defects) (s : Pager) : POp → Pager × Out
     | none => (s, .nohandle)
   | .hwrite k v =>
     match s.mem.handle? k with
-    | some h => ({ s with mem := s.mem.updateFrame h.fid (fun g => { g with val := v, dirty := true }) }, .ok)
+    | some h => ({ s with mem := s.mem.updateFrame h.fid (Frame.setVal v) }, .ok)
     | none => (s, .nohandle)
   | .flush => (s.flush D, .ok)
   | .reopen =>
